@@ -163,8 +163,12 @@ func (b *Batch) encode(w *Writer) error {
 		return b.encodeV2(w)
 	case 0, 1:
 		if b.Codec == CodecNone {
+			attr := int8(0)
+			if b.LogAppendTime && b.Magic == 1 {
+				attr = 1 << 3 // timestamp type: log append time
+			}
 			for i := range b.Records {
-				encodeMessage(w, b.Magic, 0, b.Records[i].Offset, &b.Records[i], b.CorruptCRC)
+				encodeMessage(w, b.Magic, attr, b.Records[i].Offset, &b.Records[i], b.CorruptCRC)
 			}
 			return nil
 		}
